@@ -9,3 +9,6 @@ func VerifReset() { ec = newErrorCorrection() }
 
 // VerifCacheState returns the generator polynomials cached so far.
 func VerifCacheState() [][]int { return utils.VerifRSCache(ec.rs) }
+
+// VerifRestore puts the cache back into a state read earlier with VerifCacheState.
+func VerifRestore(polys [][]int) { utils.VerifRSSetCache(ec.rs, polys) }
